@@ -124,6 +124,7 @@ EndOfInstant(m, quiescent, tnext) ==
       stuckProc == \E p \in alive : m.blk[p].op = "wproc" /\ m.st[m.blk[p].a[1]] = "done"
       stuckEv   == \E p \in alive : m.blk[p].op = "wevent" /\ m.uev[m.blk[p].a[1]].st # "pending"
       unnotified == \E p \in alive : \E c \in m.causes[p] : c.kind = "preempt" /\ c.t <= t
+      overtaken == \E p \in alive : \E c \in m.causes[p] : c.kind = "preempt-overtaken" /\ c.t <= t
       waiterUntold == \E p \in alive : \E c \in m.causes[p] : c.kind = "procend" /\ c.t <= t
       lost == {g \in Guards \ {GCOND} : m.snap.t >= 0 /\ m.snap.gq[g] # <<>> /\ GuardDemand(m, g)}
   IN (IF lostTimer THEN Bad("C04", "armed-timer-never-fired") ELSE {})
@@ -131,6 +132,7 @@ EndOfInstant(m, quiescent, tnext) ==
      \cup (IF stuckProc THEN Bad("C04", "still-waiting-for-ended-process") ELSE {})
      \cup (IF stuckEv THEN Bad("C04", "still-waiting-for-finished-event") ELSE {})
      \cup (IF unnotified THEN Bad("C07", "preempted-process-not-notified") ELSE {})
+     \cup (IF overtaken THEN Bad("C07", "preemption-notice-cancelled-by-an-overtaking-interrupt") ELSE {})
      \cup (IF waiterUntold THEN Bad("C09", "waiter-not-resumed-when-process-ended") ELSE {})
      \cup (IF lost # {} THEN Bad("C08", "waiter-blocked-while-demand-can-be-met") ELSE {})
 
@@ -138,7 +140,7 @@ EndOfInstant(m, quiescent, tnext) ==
 Advance(m, t2) ==
   IF t2 <= m.now THEN [m |-> m, bad |-> {}]
   ELSE [m |-> [m EXCEPT !.now = t2,
-                        !.causes = [p \in Procs(m) |-> {c \in @[p] : c.kind \notin {"intr", "resume", "preempt", "rpreempt", "procend", "evdone", "evcancel", "ccancel"}}]],
+                        !.causes = [p \in Procs(m) |-> {c \in @[p] : c.kind \notin {"intr", "resume", "preempt", "preempt-overtaken", "rpreempt", "procend", "evdone", "evcancel", "ccancel"}}]],
         bad |-> EndOfInstant(m, FALSE, t2)]
 
 (* ---------------------------------------------------------------------- *)
@@ -168,14 +170,16 @@ OnRet(m, e) ==
                  \/ c.op = "wevent" /\ useCause /\ sig = SUCCESS /\ chosen.kind # "evdone"
       (* an interrupt clears the target's timers; the property lets a preemption do either *)
       interrupted == useCause /\ chosen.kind = "intr"
-      preempted == useCause /\ chosen.kind \in {"preempt", "rpreempt"}
+      preempted == useCause /\ chosen.kind \in {"preempt", "preempt-overtaken", "rpreempt"}
       timers2 == IF interrupted \/ preempted THEN {} ELSE IF useTimer THEN m.timers[p] \ {CHOOSE x \in tim : TRUE} ELSE m.timers[p]
       maybe2 == IF interrupted \/ preempted THEN m.maybe[p] \cup m.timers[p]
                 ELSE IF useMaybe THEN m.maybe[p] \ {CHOOSE x \in mtim : TRUE} ELSE m.maybe[p]
       \* notifications that belonged to the call that now returned are void with it
       causes2 == {x \in (IF useCause THEN CauseDel(m.causes[p], chosen) ELSE m.causes[p]) :
                     x.kind \notin {"procend", "evdone", "evcancel", "ccancel"}}
-      m1 == [m EXCEPT !.blk[p] = NoCall, !.timers[p] = timers2, !.maybe[p] = maybe2, !.causes[p] = causes2]
+      \* a preemption notice still undelivered when an interrupt is delivered: the interrupt overtook it
+      causes3 == IF interrupted THEN {IF x.kind = "preempt" THEN [x EXCEPT !.kind = "preempt-overtaken"] ELSE x : x \in causes2} ELSE causes2
+      m1 == [m EXCEPT !.blk[p] = NoCall, !.timers[p] = timers2, !.maybe[p] = maybe2, !.causes[p] = causes3]
       (* -------- C05 *)
       isRes == c.op \in {"acq", "pre"}
       r == IF isRes THEN c.a[1] ELSE 1
